@@ -1,13 +1,17 @@
 (** C12 — No input can take a service down.
     Statements only; every proof is [exact <lemma>].
 
-    Function layer: [None] = Go run-time panic.  For each hand-written slicing
-    function: it panics on NO input outside its (decidable, narrow) finding
-    class, and exactly on the class ([…_exact]); [c12_refuted_…] are computed
-    witnesses that the class is inhabited on the tree as it is.
+    Function layer: [None] = Go run-time panic.  After the fix wave
+    (fixes/c12-2 … c12-7) every modelled hand-written slicing function is
+    TOTAL: it panics on no input — all byte strings, all integers.  (Before
+    the fixes each theorem carried a hypothesis [classify x = None] and a
+    [c12_refuted_…] witness; the finding classes are gone.)
     Service layer: for ANY table of go statements satisfying [facts_ok]
     (regenerated from the Go AST on every run as Gen.FactsC12.table) a panic
-    costs at most the offending connection. *)
+    of whatever origin costs at most the offending connection.  After fix
+    c12-1 the regenerated table satisfies [facts_ok]; the run proves
+    [isolated Gen.FactsC12.table] from the theorem below (cases file of the
+    suite `service`, re-checked by coqc on every run). *)
 From Coq Require Import String Ascii List Bool Arith ZArith.
 From Raven Require Import Base.GoStr Model.Slicers Model.SearchOr Model.Service Spec.NoCrash
   Proof.Slicers Proof.SearchOr Proof.Service Gen.FactsC12.
@@ -16,131 +20,58 @@ Import ListNotations.
 (** ================= function layer ================= *)
 
 (** response.parseAddressList / utils.ParseAddressList, all byte strings *)
-Theorem c12_address_list_total : forall a : str,
-  classify_address_list a = None -> no_panic (parse_address_list a).
+Theorem c12_address_list_total : forall a : str, no_panic (parse_address_list a).
 Proof. exact parse_address_list_total. Qed.
 Print Assumptions c12_address_list_total.
 
-Theorem c12_address_list_exact : forall a : str,
-  parse_address_list a = None <-> classify_address_list a = Some AddressAngle.
-Proof. exact parse_address_list_none_iff. Qed.
-Print Assumptions c12_address_list_exact.
-
-(** response.extractHeader / utils.ExtractHeader never panics *)
+(** response.extractHeader / utils.ExtractHeader *)
 Theorem c12_extract_header_total : forall raw name : str, no_panic (extract_header raw name).
 Proof. exact extract_header_total. Qed.
 Print Assumptions c12_extract_header_total.
 
 (** response.BuildEnvelope on every stored message *)
-Theorem c12_envelope_total : forall raw : str,
-  classify_envelope raw = None -> no_panic (build_envelope raw).
+Theorem c12_envelope_total : forall raw : str, no_panic (build_envelope raw).
 Proof. exact build_envelope_total. Qed.
 Print Assumptions c12_envelope_total.
 
-Theorem c12_envelope_panic_classified : forall raw : str,
-  build_envelope raw = None -> classify_envelope raw = Some AddressAngle.
-Proof. exact build_envelope_none_classified. Qed.
-Print Assumptions c12_envelope_panic_classified.
+(** message.slicePartial: all data, all integers *)
+Theorem c12_partial_arith_total : forall (p : str) (start len : Z), no_panic (partial_apply p start len).
+Proof. exact partial_apply_total. Qed.
+Print Assumptions c12_partial_arith_total.
+
+(** … and it returns the RFC 3501 window: octets start .. start+len-1, truncated
+    to the data, empty when start is at or beyond the end *)
+Theorem c12_partial_arith_window : forall (p : str) (start len : Z),
+  (0 <= start)%Z -> (0 <= len)%Z ->
+  partial_apply p start len = Some (firstn (Z.to_nat len) (skipn (Z.to_nat start) p)).
+Proof. exact partial_apply_window. Qed.
+Print Assumptions c12_partial_arith_window.
 
 (** FETCH BODY[n]<…>: every text after the closing bracket, every part payload *)
-Theorem c12_numeric_partial_exact : forall rest payload : str,
-  numeric_partial rest payload = None <-> classify_numeric_partial rest payload = Some PartialNegative.
-Proof. exact numeric_partial_none_iff. Qed.
-Print Assumptions c12_numeric_partial_exact.
-
-Theorem c12_numeric_partial_total : forall rest payload : str,
-  classify_numeric_partial rest payload = None -> no_panic (numeric_partial rest payload).
-Proof. exact (fun r p => total_of_iff _ _ _ (numeric_partial_none_iff r p)). Qed.
+Theorem c12_numeric_partial_total : forall rest payload : str, no_panic (numeric_partial rest payload).
+Proof. exact numeric_partial_total. Qed.
 Print Assumptions c12_numeric_partial_total.
 
-(** the arithmetic itself, for all integers (Go int = wrap64) *)
-Theorem c12_partial_arith_exact : forall (p : str) (start len : Z),
-  partial_apply p start len = None <-> partial_bad p start len = true.
-Proof. exact partial_apply_none_iff. Qed.
-Print Assumptions c12_partial_arith_exact.
-
 (** FETCH BODY[TEXT]<…>: every item string, every body *)
-Theorem c12_text_partial_exact : forall items_upper body : str,
-  text_partial items_upper body = None <-> classify_text_partial items_upper body = Some TextPartialNegative.
-Proof. exact text_partial_none_iff. Qed.
-Print Assumptions c12_text_partial_exact.
-
-Theorem c12_text_partial_total : forall items_upper body : str,
-  classify_text_partial items_upper body = None -> no_panic (text_partial items_upper body).
-Proof. exact (fun i b => total_of_iff _ _ _ (text_partial_none_iff i b)). Qed.
+Theorem c12_text_partial_total : forall items_upper body : str, no_panic (text_partial items_upper body).
+Proof. exact text_partial_total. Qed.
 Print Assumptions c12_text_partial_total.
 
-(** FETCH … HEADER.FIELDS prefix arithmetic: every item string *)
-Theorem c12_header_fields_exact : forall items : str,
-  header_fields items = None <-> classify_header_fields items = Some HeaderFieldsShort.
-Proof. exact header_fields_none_iff. Qed.
-Print Assumptions c12_header_fields_exact.
-
-Theorem c12_header_fields_total : forall items : str,
-  classify_header_fields items = None -> no_panic (header_fields items).
-Proof. exact (fun i => total_of_iff _ _ _ (header_fields_none_iff i)). Qed.
+(** FETCH … HEADER.FIELDS prefix arithmetic: every item string (all 256 byte
+    values: the code now upper-cases ASCII letters only, which is [to_upper]) *)
+Theorem c12_header_fields_total : forall items : str, no_panic (header_fields items).
+Proof. exact header_fields_total. Qed.
 Print Assumptions c12_header_fields_total.
 
 (** BuildBodyStructure, non-multipart branch: every stored message *)
-Theorem c12_bodystructure_single_exact : forall raw : str,
-  bs_single_body raw = None <-> classify_bs_single raw = Some BodystructureLfTail.
-Proof. exact bs_single_body_none_iff. Qed.
-Print Assumptions c12_bodystructure_single_exact.
-
-Theorem c12_bodystructure_single_total : forall raw : str,
-  classify_bs_single raw = None -> no_panic (bs_single_body raw).
-Proof. exact (fun r => total_of_iff _ _ _ (bs_single_body_none_iff r)). Qed.
+Theorem c12_bodystructure_single_total : forall raw : str, no_panic (bs_single_body raw).
+Proof. exact bs_single_body_total. Qed.
 Print Assumptions c12_bodystructure_single_total.
 
 (** SEARCH: the OR case of evaluateTokens, every token list and cursor *)
-Theorem c12_search_or_exact : forall (tokens : list str) (i : nat),
-  or_step tokens i = None <-> classify_or tokens i = Some SearchOrArity.
-Proof. exact or_step_none_iff. Qed.
-Print Assumptions c12_search_or_exact.
-
-Theorem c12_search_or_total : forall (tokens : list str) (i : nat),
-  classify_or tokens i = None -> no_panic (or_step tokens i).
-Proof. exact (fun t i => total_of_iff _ _ _ (or_step_none_iff t i)). Qed.
+Theorem c12_search_or_total : forall (tokens : list str) (i : nat), no_panic (or_step tokens i).
+Proof. exact or_step_total. Qed.
 Print Assumptions c12_search_or_total.
-
-(** ---- the classes are inhabited on the tree as it is (known findings) ---- *)
-Theorem c12_refuted_search_or_arity :
-  exists tokens i, classify_or tokens i = Some SearchOrArity /\ or_step tokens i = None.
-Proof. exists [S_ "OR"; S_ "KEYWORD"; S_ "x"], 0. vm_compute. split; reflexivity. Qed.
-Print Assumptions c12_refuted_search_or_arity.
-
-Theorem c12_refuted_address_angle :
-  exists a, classify_address_list a = Some AddressAngle /\ parse_address_list a = None.
-Proof. exists (S_ ">a<"). vm_compute. split; reflexivity. Qed.
-Print Assumptions c12_refuted_address_angle.
-
-Theorem c12_refuted_partial_negative :
-  exists rest payload, classify_numeric_partial rest payload = Some PartialNegative
-                       /\ numeric_partial rest payload = None.
-Proof. exists (S_ "<-1.5>"), []. vm_compute. split; reflexivity. Qed.
-Print Assumptions c12_refuted_partial_negative.
-
-Theorem c12_refuted_partial_overflow :
-  exists rest payload, classify_numeric_partial rest payload = Some PartialNegative
-                       /\ numeric_partial rest payload = None.
-Proof. exists (S_ "<1.9223372036854775807>"), (S_ "body"). vm_compute. split; reflexivity. Qed.
-Print Assumptions c12_refuted_partial_overflow.
-
-Theorem c12_refuted_text_partial_negative :
-  exists items body, classify_text_partial items body = Some TextPartialNegative
-                     /\ text_partial items body = None.
-Proof. exists (S_ "BODY[TEXT]<3.-2>"), (S_ "hello"). vm_compute. split; reflexivity. Qed.
-Print Assumptions c12_refuted_text_partial_negative.
-
-Theorem c12_refuted_header_fields_short :
-  exists items, classify_header_fields items = Some HeaderFieldsShort /\ header_fields items = None.
-Proof. exists (S_ "BODY[HEADER.FIELDS]"). vm_compute. split; reflexivity. Qed.
-Print Assumptions c12_refuted_header_fields_short.
-
-Theorem c12_refuted_bodystructure_lf_tail :
-  exists raw, classify_bs_single raw = Some BodystructureLfTail /\ bs_single_body raw = None.
-Proof. exists (S_ "A: b" ++ crlf ++ S_ "C: d" ++ [LF; LF]). vm_compute. split; reflexivity. Qed.
-Print Assumptions c12_refuted_bodystructure_lf_tail.
 
 (** ================= service layer ================= *)
 
@@ -155,7 +86,9 @@ Print Assumptions c12_service_isolated_of_facts.
 
 (** the table regenerated from the CURRENT tree: either it is isolated, or it
     names the connection goroutine that does not recover / the listener that
-    was not found *)
+    was not found.  (Stated as a case split so that a tree that loses a
+    recover still compiles and the run can show the failing session; the run
+    itself proves [facts_ok table = true] and [isolated table].) *)
 Theorem c12_service_status_now :
   if facts_ok FactsC12.table then isolated FactsC12.table
   else (exists e, In e FactsC12.table /\ e_conn e = true /\ recovers e = false)
@@ -164,7 +97,7 @@ Proof. exact (service_status FactsC12.table). Qed.
 Print Assumptions c12_service_status_now.
 
 (** without recover, ANY panicking command of ANY handler kills the process and
-    every later connection gets nothing *)
+    every later connection gets nothing (why the recover is necessary) *)
 Theorem c12_unrecovered_panic_kills :
   forall (e : entry) (h : handler) (cmds : list cmd) (later : list conn_event),
   recovers e = false ->
@@ -175,18 +108,7 @@ Theorem c12_unrecovered_panic_kills :
 Proof. exact unrecovered_panic_kills. Qed.
 Print Assumptions c12_unrecovered_panic_kills.
 
-(** the function-layer witness lifted to the service: FETCH ENVELOPE of a
-    message with From: >a< on the pinned IMAP entry point, then a second
-    connection that is no longer served *)
-Theorem c12_refuted_service :
-  recovers pinned_imap_entry = false
-  /\ classify_envelope witness_message = Some AddressAngle
-  /\ fst (run true witness_events) = false
-  /\ snd (run true witness_events) <> map alone witness_events.
-Proof. exact refuted_service_witness. Qed.
-Print Assumptions c12_refuted_service.
-
-(** ---- non-vacuity ---- *)
+(** ---- non-vacuity / examples ---- *)
 Example c12_facts_ok_satisfiable :
   facts_ok [mk_entry (S_ "a.go:1") (S_ "h") Imap true true true;
             mk_entry (S_ "b.go:1") (S_ "h") Lmtp true true true;
@@ -195,10 +117,20 @@ Example c12_facts_ok_satisfiable :
 Proof. vm_compute. reflexivity. Qed.
 
 Example c12_envelope_ok_example :
-  classify_envelope (S_ "From: Ann <a@b>" ++ crlf ++ crlf) = None
-  /\ option_map string_of_list_ascii (build_envelope (S_ "From: Ann <a@b>" ++ crlf ++ crlf))
-     = Some "ENVELOPE (NIL NIL ((""Ann"" NIL ""a"" ""b"")) ((""Ann"" NIL ""a"" ""b"")) ((""Ann"" NIL ""a"" ""b"")) NIL NIL NIL NIL NIL)"%string.
-Proof. vm_compute. split; reflexivity. Qed.
+  option_map string_of_list_ascii (build_envelope (S_ "From: Ann <a@b>" ++ crlf ++ crlf))
+  = Some "ENVELOPE (NIL NIL ((""Ann"" NIL ""a"" ""b"")) ((""Ann"" NIL ""a"" ""b"")) ((""Ann"" NIL ""a"" ""b"")) NIL NIL NIL NIL NIL)"%string.
+Proof. vm_compute. reflexivity. Qed.
+
+(** the former witnesses now have values *)
+Example c12_former_witnesses :
+  option_map string_of_list_ascii (parse_address_list (S_ ">a<")) = Some "((NIL NIL "">a<"" NIL))"%string
+  /\ option_map string_of_list_ascii (parse_address_list (S_ "x> <a@b>")) = Some "((""x>"" NIL ""a"" ""b""))"%string
+  /\ numeric_partial (S_ "<1.9223372036854775807>") (S_ "body") = Some (S_ "ody")
+  /\ text_partial (S_ "BODY[TEXT]<3.-2>") (S_ "hello") = Some []
+  /\ header_fields (S_ "BODY[HEADER.FIELDS]") = Some (Some hf_defaults)
+  /\ bs_single_body (S_ "A: b" ++ crlf ++ S_ "C: d" ++ [LF; LF]) = Some []
+  /\ or_step [S_ "OR"; S_ "KEYWORD"; S_ "x"] 0 = Some None.
+Proof. vm_compute. repeat split; reflexivity. Qed.
 
 Example c12_partial_ok_example :
   option_map string_of_list_ascii (numeric_partial (S_ "<1.3>") (S_ "hello")) = Some "ell"%string.
